@@ -28,7 +28,7 @@
    when its acquisition reports success and leaves when it calls unlock), and a log of results.
    No proofs in this file. *)
 
-From Coq Require Import List Arith Bool.
+From Coq Require Import List Arith Bool PeanoNat.
 Import ListNotations.
 
 Definition fid := nat.
@@ -764,5 +764,16 @@ Definition step (s : st) (e : ev) : st :=
 
 Fixpoint run (s : st) (tr : list ev) : st :=
   match tr with [] => s | e :: r => run (step s e) r end.
+
+(* The variable index is handed out by ThreadLocalPtrProxy's constructors (thread_local_proxy.hpp).  [tys]: the
+   pointee types of the proxies in construction order.  one_counter = false: the pinned text, the counter is a
+   static member of the class template, i.e. one counter per pointee type; true: one counter for all. *)
+Fixpoint slots_from (one_counter : bool) (seen : list nat) (tys : list nat) : list nat :=
+  match tys with
+  | [] => []
+  | t :: r =>
+      (if one_counter then length seen else count_occ Nat.eq_dec seen t) :: slots_from one_counter (seen ++ [t]) r
+  end.
+Definition slots (one_counter : bool) (tys : list nat) : list nat := slots_from one_counter [] tys.
 
 End Tl.
